@@ -2158,7 +2158,7 @@ func (c *Ctx) r0920(pk *packages.Package, rule string) {
 		c.R.Check(rec, rule, "js.replaceEscapes/end tag recognised whatever its case and tail#1", c.pos(fd), "through a case-folding comparison of `script`", "replaceEscapes does not look for `</script` at all: an unnecessary escape `<\\/script>` is stripped and the string ends the script element")
 	}
 	// (b) the decoding branches
-	for _, br := range []struct{ lit, name string }{{"'x'", "\\x"}, {"'u'", "\\u"}, {"'0'", "octal"}} {
+	for _, br := range []struct{ lit, name string }{{"'x'", "\\x"}, {"'u'", "\\u"}, {"'0'", "octal"}, {"'<'", "raw <"}} {
 		var branch *ast.IfStmt
 		ast.Inspect(fd.Body, func(z ast.Node) bool {
 			ifs, ok := z.(*ast.IfStmt)
